@@ -35,7 +35,9 @@ CONSTANTS Names,      \* macro names, e.g. {"A", "B"}
 
 Undef == "undef"
 Num(v) == CASE v = "v0" -> 0 [] v = "v1" -> 1 [] v = "v2" -> 2 [] OTHER -> 0
-IsNum(v) == v \in {"v0", "v1", "v2", Undef}
+\* "fn" is a function-like macro (#define A(x) x+1): its bare name is not a macro invocation, so in
+\* an #if expression it is an ordinary identifier and counts as 0 (C 6.10.1p4)
+IsNum(v) == v \in {"v0", "v1", "v2", "fn", Undef}
 
 (* ---- #if expressions ------------------------------------------------- *)
 Rels == RelSet
@@ -184,18 +186,39 @@ UndefLine(n) ==
 \* and a macro is not re-expanded inside its own expansion.
 OtherName(n) == CHOOSE o \in Names : o # n
 Expansion(n) ==
-  IF defs[n] = Undef THEN [t |-> "name", x |-> n]
+  IF defs[n] \in {Undef, "fn"} THEN [t |-> "name", x |-> n]      \* bare name of a function-like macro stays
   ELSE IF defs[n] # "ref" THEN [t |-> "val", x |-> defs[n]]
   ELSE LET o == OtherName(n) IN
-       IF defs[o] = Undef THEN [t |-> "name", x |-> o]
+       IF defs[o] \in {Undef, "fn"} THEN [t |-> "name", x |-> o]
        ELSE IF defs[o] = "ref" THEN [t |-> "name", x |-> n]
        ELSE [t |-> "val", x |-> defs[o]]
 
-Code(u) ==
-  /\ (u # "none" /\ defs[u] = "ref") => Cardinality(Names) = 2
-  /\ Emit([k |-> "code", use |-> u, val |-> IF u = "none" THEN "none" ELSE defs[u],
+\* `form`: how the macro name is written on the line: "bare" (A), "call" (A(2)), "call2" (A(2)+A(3)).
+\* An invocation of a function-like macro is replaced by its body with the argument substituted; an
+\* object-like macro followed by "(" is replaced by its body, the parenthesis stays; the renderer
+\* derives the expected text of the call forms from `val`.
+Forms == IF "fn" \in Vals THEN {"bare", "call", "call2"} ELSE {"bare"}
+Code(u, f) ==
+  /\ u = "none" => f = "bare"
+  /\ (u # "none" /\ defs[u] = "ref") => (Cardinality(Names) = 2 /\ f = "bare")
+  /\ Emit([k |-> "code", use |-> u, form |-> f, val |-> IF u = "none" THEN "none" ELSE defs[u],
            exp |-> IF u = "none" THEN [t |-> "none", x |-> "none"] ELSE Expansion(u)])
   /\ UNCHANGED <<defs, idefs, frames, stack, group, skips, effects>>
+
+(* ---- #include ---------------------------------------------------------- *)
+\* Headers with fixed contents (the renderer writes them next to the file):
+\*   "hdef"  : #define B 1            (no effect unless "B" is a model name and B is undefined)
+\*   "hloop" : includes itself twice  (no effect; a cpp stops at its nesting limit)
+\*   "hping" : includes "hpong" twice, which includes "hping" twice and then defines B
+\* An #include in an inactive region is not processed.
+Headers == IF "fn" \in Vals THEN {"hdef", "hloop", "hping"} ELSE {}
+HeaderDefs(h, d, on) ==
+  IF on /\ h \in {"hdef", "hping"} /\ "B" \in Names /\ d["B"] = Undef THEN [d EXCEPT !["B"] = "v1"] ELSE d
+Include(h) ==
+  /\ defs'  = HeaderDefs(h, defs, Live)
+  /\ idefs' = HeaderDefs(h, idefs, ImplLive)
+  /\ Emit([k |-> "include", h |-> h])
+  /\ UNCHANGED <<frames, stack, group, skips, effects>>
 
 DoIf     == \E e \in Exprs : If(e)
 DoIfdef  == \E n \in Names : Ifdef(n)
@@ -203,13 +226,19 @@ DoIfndef == \E n \in Names : Ifndef(n)
 DoElif   == \E e \in Exprs : Elif(e)
 DoDefine == \E n \in Names, v \in Vals : Define(n, v)
 DoUndef  == \E n \in Names : UndefLine(n)
-DoCode   == \E u \in Names \cup {"none"} : Code(u)
-Next == DoIf \/ DoIfdef \/ DoIfndef \/ DoElif \/ Else \/ Endif \/ DoDefine \/ DoUndef \/ DoCode
+DoCode   == \E u \in Names \cup {"none"}, f \in Forms : Code(u, f)
+DoInclude == \E h \in Headers : Include(h)
+Next == DoIf \/ DoIfdef \/ DoIfndef \/ DoElif \/ Else \/ Endif \/ DoDefine \/ DoUndef \/ DoCode \/ DoInclude
 Spec == Init /\ [][Next]_vars
 
 \* skeleton generator: conditionals and one kind of code line only, from one initial table
-SkelNext == DoIf \/ DoElif \/ Else \/ Endif \/ Code("none")
+SkelNext == DoIf \/ DoElif \/ Else \/ Endif \/ Code("none", "bare")
 SkelSpec == (Init /\ \A n \in Names : defs[n] = Undef) /\ [][SkelNext]_vars
+
+\* macro-table generator: definitions, undefinitions, includes and uses only (a macro changes its
+\* kind between uses; headers that include each other)
+MacroNext == DoDefine \/ DoUndef \/ DoCode \/ DoInclude
+MacroSpec == Init /\ [][MacroNext]_vars
 
 (* ---- properties -------------------------------------------------------- *)
 ImplAgrees == /\ ImplLive = Live
